@@ -296,7 +296,7 @@ where
         // The typed entry points are thin generic wrappers; instantiating them for every settings family
         // multiplies compile time, so they run on the families with DEALLOCATES and SHRINKS on (8 of 32 families,
         // all minimum alignments, both directions, guaranteed-allocated on and off).
-        if const { S::DEALLOCATES && S::SHRINKS } { typed::scope_typed(self.s, c, req) } else { TypedRes::Unsupported }
+        if const { S::DEALLOCATES == S::SHRINKS } { typed::scope_typed(self.s, c, req) } else { TypedRes::Unsupported }
     }
     fn claim_again(&self) {
         let _g = self.s.claim();
@@ -409,7 +409,7 @@ where
         self.b.is_claimed()
     }
     fn typed(&mut self, c: usize, req: &TypedReq) -> TypedRes {
-        if const { S::DEALLOCATES && S::SHRINKS } { typed::root_typed(self.b, c, req) } else { TypedRes::Unsupported }
+        if const { S::DEALLOCATES == S::SHRINKS } { typed::root_typed(self.b, c, req) } else { TypedRes::Unsupported }
     }
     fn claim_again(&self) {
         let _g = self.b.claim();
